@@ -40,7 +40,9 @@ func (d *DeterministicSampler) Start() error {
 	// must not reach the division below.
 	d.upperBound = math.MaxUint32
 	if d.sampleRate > 1 {
-		d.upperBound = math.MaxUint32 / uint32(d.sampleRate)
+		// divide in 64 bits: a rate of 2^32 or more truncated to 32 bits can be 0
+		// (division by zero) or a small number that keeps far too much
+		d.upperBound = uint32(math.MaxUint32 / uint64(d.sampleRate))
 	}
 
 	return nil
